@@ -499,6 +499,10 @@ class Purity:
             if name in VIEW_METHODS:
                 return recv.elems() if recv.roots else FRESH
             if name in FRESH_METHODS:
+                # astype(dt, copy=False) / copy=False in general hands back the receiver itself when nothing has to change
+                nocopy = any(k.arg == 'copy' and isinstance(k.value, ast.Constant) and k.value.value is False for k in c.keywords)
+                if nocopy and recv.roots:
+                    return recv.elems()
                 return Val(scalar=False)
             # unknown method on an object: result may expose its storage
             return recv.elems() if recv.roots else FRESH
